@@ -79,6 +79,11 @@ fn field_helpers(recvs: &[Recv], scope: &str, f: &Field, k: usize, out: &mut Str
     } else if f.flatten && f.post == Post::Map {
         // a transform on the flatten member: wraps the nested receiver's anchor, visible in the dump
         out.push_str(&format!("fn map_{}_{}(v: {full_ty}) -> {full_ty} {{ flatten_mark(v) }}\n", scope, hn));
+    } else if f.flatten && f.post == Post::AndThen {
+        out.push_str(&format!(
+            "fn andthen_{}_{}(v: {full_ty}) -> ::darling::Result<{full_ty}> {{ if flatten_rejects(&v) {{ Err(::darling::Error::custom(\"rejected by flatten and_then\")) }} else {{ Ok(flatten_mark(v)) }} }}\n",
+            scope, hn
+        ));
     }
 }
 
@@ -294,6 +299,9 @@ pub fn emit_recv(recvs: &[Recv], r: &Recv, out: &mut String) {
                 if v.word {
                     vo.push("word".into());
                 }
+                if v.word_false {
+                    vo.push("word = false".into());
+                }
                 let attr = if vo.is_empty() { String::new() } else { format!("#[darling({})] ", vo.join(", ")) };
                 match &v.body {
                     VBody::Unit => out.push_str(&format!("    {attr}{},\n", v.rust)),
@@ -393,8 +401,9 @@ pub const PRELUDE: &str = r#"// @generated by the corpus emitter — a shard of 
 
 fn attrs_count(attrs: Vec<syn::Attribute>) -> ::darling::Result<usize> { Ok(attrs.len()) }
 fn data_passthrough<V: ::darling::FromVariant, F: ::darling::FromField>(d: &syn::Data) -> ::darling::Result<::darling::ast::Data<V, F>> { ::darling::ast::Data::try_from(d) }
-trait FlattenMark { fn mark(self) -> Self; }
+trait FlattenMark { fn mark(self) -> Self; fn rejects(&self) -> bool; }
 fn flatten_mark<T: FlattenMark>(v: T) -> T { v.mark() }
+fn flatten_rejects<T: FlattenMark>(v: &T) -> bool { v.rejects() }
 "#;
 
 /// The same programs for a crate whose only dependency is darling: `syn` is reached through
@@ -495,8 +504,16 @@ pub fn emit_shard(recvs: &[Recv], ids: &[usize]) -> String {
                 },
                 None => String::new(),
             };
-            out.push_str(&format!("impl FlattenMark for {} {{ fn mark(mut self) -> Self {{ {stmt} self }} }}\n", r.name()));
-            out.push_str(&format!("impl FlattenMark for Box<{}> {{ fn mark(self) -> Self {{ Box::new((*self).mark()) }} }}\n\n", r.name()));
+            let cond = match anchor_field(r) {
+                Some(a) => match r.fields()[a].ty {
+                    Ty::Sc(Sc::I64) => format!("self.{} == 42", r.fields()[a].rust),
+                    Ty::Sc(Sc::Str) => format!("self.{} == \"x\"", r.fields()[a].rust),
+                    _ => "false".to_string(),
+                },
+                None => "false".to_string(),
+            };
+            out.push_str(&format!("impl FlattenMark for {} {{ fn mark(mut self) -> Self {{ {stmt} self }} fn rejects(&self) -> bool {{ {cond} }} }}\n", r.name()));
+            out.push_str(&format!("impl FlattenMark for Box<{}> {{ fn mark(self) -> Self {{ Box::new((*self).mark()) }} fn rejects(&self) -> bool {{ (**self).rejects() }} }}\n\n", r.name()));
         }
     }
     out.push_str("fn dispatch(recv: usize, entry: &str, src: &str) -> Result<::vf_support::Value, String> {\n    match (recv, entry) {\n");
